@@ -128,10 +128,19 @@ def judge(chk, label, lines, zones_wanted, impl_pieces, work, start, until, note
     json.dump(obs, open(op, 'w'))
     res, verdicts = tzconf.run_tzsem(model, op)
     bad = 0
+    skipped = []
     for n in names:
         v = verdicts[n]
         if not v['zic']['ok']:
-            raise common.MachineryError('TzSem disagrees with zic on %s (%s) at piece %s: spec=%s zic=%s' % (n, label, v['zic']['at'], v['zic']['spec'], v['zic']['obs']))
+            msg = 'TzSem disagrees with zic on %s (%s) at piece %s: spec=%s zic=%s' % (n, label, v['zic']['at'], v['zic']['spec'], v['zic']['obs'])
+            if label.split(':')[0].startswith(('gen', 'mut')):
+                # a generated or mutated source may contain a construct on which the specification and zic's TZif output differ
+                # (see DESIGN.md section 9): that zone has no oracle and is not judged; the release, the recorded lines and the
+                # fixed sources must agree
+                skipped.append(n)
+                chk.notes.append('zone not judged, no agreed oracle: ' + msg)
+                continue
+            raise common.MachineryError(msg)
         if n in impl_pieces and not v['impl']['ok']:
             if n in noted:
                 continue
@@ -181,7 +190,9 @@ def judge(chk, label, lines, zones_wanted, impl_pieces, work, start, until, note
                 continue
             chk.violation('%s%s:%s:semantics' % (label, variant, n), 'emitted zone interpreted by the matching processor differs from the source semantics%s at piece %%d: source says %%s, compiled zone says %%s' % (' (source with the documented truncations applied)' if variant else '') % (
                 v['impl']['at'], v['impl']['spec'], v['impl']['obs']), {'zone': n, 'target': label, 'spec': v['impl']['spec'], 'impl': v['impl']['obs']})
-    return res, len([n for n in names if n in impl_pieces]), bad
+    if len(skipped) > max(2, len(names) // 10):
+        raise common.MachineryError('TzSem and zic disagree on %d of %d zones of %s: %s' % (len(skipped), len(names), label, skipped[:5]))
+    return res, len([n for n in names if n in impl_pieces and n not in skipped]), bad
 
 
 # ------------------------------------------------------------------ program generation (small sources over the documented grammar)
